@@ -110,6 +110,11 @@ func drawListing(t *rapid.T) sitemodel.Listing {
 			fn.Name = []string{"type:.eq.struct { runtime.gList; runtime.n int32 }%d(SB)", "main.f%d[go.shape.struct { Key reflect.Value; Value reflect.Value }](SB)",
 				"type:.hash.[%d]struct { a int; b string }(SB)", "main.(*T%d).method-fm(SB)"}[rapid.IntRange(0, 3).Draw(t, "blankName")]
 			fn.Name = fmt.Sprintf(fn.Name, f)
+		case 2:
+			// symbols that contain the text of a trigger instruction: a header line is a header, whatever else it looks like
+			fn.Name = []string{"main.CALLBACK%d(SB)", "main.doSYSCALL%d(SB)", "main.f%d[go.shape.struct { CALL int }](SB)", "main.SYSENTER%d(SB)",
+				"main.(*RPCALL%d).Do(SB)", "main.CALL syscall.Syscall%d(SB)"}[rapid.IntRange(0, 5).Draw(t, "triggerName")]
+			fn.Name = fmt.Sprintf(fn.Name, f)
 		default:
 			fn.Name = fmt.Sprintf("main.f%d(SB)", f)
 		}
